@@ -77,6 +77,56 @@ int shp_seed_set(uint64_t s);
 int shp_blk_available(void);
 int shp_blk_compute(uint32_t B, uint32_t L, uint32_t E, uint32_t *out5); /* I, A_large, A_small, nb_blocks, status */
 
+/* probe_mat: sparse / dense GF(2) matrices, conversions, popcounts, dense solver */
+int shp_mat_available(void);
+void *shp_sp_alloc(uint32_t rows, uint32_t cols);
+void shp_sp_free(void *m);                       /* of_mod2sparse_free + of_free of the header */
+void shp_sp_clear(void *m);
+int shp_sp_insert(void *m, uint32_t r, uint32_t c);   /* 1 if an entry pointer was returned */
+int shp_sp_find(void *m, uint32_t r, uint32_t c);
+int shp_sp_delete(void *m, uint32_t r, uint32_t c);   /* find + delete; 0 if absent */
+void shp_sp_copy(void *m, void *r);
+void shp_sp_copyrows(void *m, void *r, uint32_t *rows);
+void shp_sp_copycols(void *m, void *r, uint32_t *cols);
+void shp_sp_copyrows_opt(void *m, void *r, uint32_t *rows);
+void shp_sp_copycols_opt(void *m, void *r, uint32_t *cols);
+void shp_sp_copy_filled(void *m, void *r, uint32_t *index_rows, uint32_t *index_cols);
+int shp_sp_empty_row(void *m, uint32_t r);
+int shp_sp_empty_col(void *m, uint32_t c);
+uint32_t shp_sp_weight_row(void *m, uint32_t r);
+/* traversal dumps: entries in row-major (resp. column-major) traversal order as (row, col) pairs;
+ * returns count, or -1 if a traversal does not terminate within cap steps / header fields are odd */
+long shp_sp_dump_rows(void *m, int32_t *out_r, int32_t *out_c, long cap);
+long shp_sp_dump_cols(void *m, int32_t *out_r, int32_t *out_c, long cap);
+int shp_sp_links_ok(void *m, long cap);
+void shp_sp_to_dense(void *m, void *d);
+void shp_dense_to_sp(void *d, void *m);
+
+void *shp_dn_alloc(uint32_t rows, uint32_t cols);
+void shp_dn_free(void *d);
+void shp_dn_clear(void *d);
+uint32_t shp_dn_get(void *d, uint32_t r, uint32_t c);
+int shp_dn_set(void *d, uint32_t r, uint32_t c, uint32_t v);
+uint32_t shp_dn_flip(void *d, uint32_t r, uint32_t c);
+void shp_dn_copy(void *m, void *r);
+void shp_dn_copyrows(void *m, void *r, uint32_t *rows);
+void shp_dn_copycols(void *m, void *r, uint32_t *cols);
+void shp_dn_xor_rows(void *d, uint32_t from, uint32_t to);
+uint32_t shp_dn_row_weight(void *d, uint32_t r);
+uint32_t shp_dn_col_weight(void *d, uint32_t c);
+int shp_dn_row_is_empty(void *d, uint32_t r);
+uint32_t shp_dn_row_weight_ignore_first(void *d, uint32_t r, uint32_t nb);
+uint32_t shp_dn_rows(void *d);
+uint32_t shp_dn_cols(void *d);
+int shp_popcount3(uint64_t x);
+uint32_t shp_hweight32(uint32_t w);
+uint32_t shp_hweight32_naive(uint32_t w);
+uint32_t shp_hweight32_table(uint32_t w);
+uint32_t shp_hweight8_table(uint8_t w);
+uint32_t shp_hweight_array(uint32_t *a, int32_t size_bits);
+/* solver: d is consumed (row pointers permuted), const_tab/var_tab as the ML decoder passes them */
+int shp_solve(void *d, void **const_tab, void **var_tab, uint32_t L);
+
 #ifdef __cplusplus
 }
 #endif
